@@ -85,6 +85,7 @@ func GuardOSRoot(fs hackpadfs.FS, wantDir string) {
 //	mount0     mount.FS without mount points (root only)
 //	mount1     mount.FS with a mem.FS mounted at "a"
 //	mount2     mount.FS with mem.FS at "a" and nested at "a/b"
+//	mountstack mount.FS (no mount points) whose root is the mount1 composition
 //	submem     Sub(mem, "s/t")
 //	subsub     Sub(Sub(mem, "s"), "t")
 //	submountpt Sub(mount.FS, "m") where "m" is a mount point
@@ -112,7 +113,7 @@ func New(kind string) *Subject {
 		must(err)
 		s.FS = mfs
 		s.Parts = []hackpadfs.FS{mfs, root}
-	case "mount1", "mount2":
+	case "mount1", "mount2", "mountstack":
 		root := NewMem()
 		must(root.Mkdir("a", 0o755))
 		ma := NewMem()
@@ -131,6 +132,13 @@ func New(kind string) *Subject {
 			s.Parts = append(s.Parts, mab)
 		}
 		s.FS = mfs
+		if kind == "mountstack" {
+			// two stacked layers: the mount.FS with "a" mounted is itself the root of an outer, mount-less mount.FS
+			outer, err := mount.NewFS(mfs)
+			must(err)
+			s.FS = outer
+			s.Parts = append([]hackpadfs.FS{outer}, s.Parts...)
+		}
 	case "minimal":
 		// a small writable FS: only Open, OpenFile, Mkdir, Remove, Rename; every other helper takes its fallback path
 		inner := NewMem()
